@@ -39,6 +39,8 @@ ObsInit == [exact |-> TRUE,     \* FALSE when the harness knows the submit threa
             fin |-> {},            \* futures seen FINISHED
             running |-> {},        \* futures whose callable is running right now (Invoke without InvokeEnd)
             crun |-> EmptyMap,     \* f -> TRUE if the callable was running when the pending cancel() was issued
+            cfalse |-> EmptyMap,   \* f -> time at which a cancel() of f first returned False
+            polt |-> EmptyMap,     \* f -> time of the policy's latest sleep_time answer
             down |-> FALSE]
 
 RECURSIVE Pow(_, _)
@@ -59,9 +61,11 @@ ObsNext(st, e) ==
           [st EXCEPT !.polled = Put(@, e.f, st.polled[e.f] + 1), !.dec = Put(@, e.f, e.a),
                      !.delay = Put(@, e.f, -1)]
     [] e.ev = "SleepTime" /\ Has(st.delay, e.f) ->
-          [st EXCEPT !.delay = Put(@, e.f, e.a), !.dec = Put(@, e.f, IF e.a = -2 THEN 2 ELSE st.dec[e.f])]
+          [st EXCEPT !.delay = Put(@, e.f, e.a), !.dec = Put(@, e.f, IF e.a = -2 THEN 2 ELSE st.dec[e.f]),
+                     !.polt = Put(@, e.f, e.t)]
     [] e.ev = "CancelCall" -> [st EXCEPT !.ccall = @ \cup {e.f}, !.crun = Put(@, e.f, e.f \in st.running)]
-    [] e.ev = "CancelRet" -> [st EXCEPT !.cret = @ \cup {e.f}, !.ctrue = IF e.a = 1 THEN @ \cup {e.f} ELSE @]
+    [] e.ev = "CancelRet" -> [st EXCEPT !.cret = @ \cup {e.f}, !.ctrue = IF e.a = 1 THEN @ \cup {e.f} ELSE @,
+                                        !.cfalse = IF e.a = 0 /\ ~Has(@, e.f) THEN Put(@, e.f, e.t) ELSE @]
     [] e.ev = "ShutdownCall" -> [st EXCEPT !.down = TRUE]
     [] e.ev = "Observed" /\ e.s = "FINISHED" -> [st EXCEPT !.fin = @ \cup {e.f}]
     [] OTHER -> st
@@ -101,6 +105,11 @@ Clauses(st, e) ==
      <<"C05_NotDoneBeforeFinal",
         ((e.ev = "Observed" /\ e.s = "FINISHED") \/ (e.ev = "Callback" /\ e.f \notin st.ccall)) /\ Has(st.dec, e.f) =>
             (st.open[e.f] = 0 /\ st.ended[e.f] >= 1 /\ (st.dec[e.f] \in {0, 2} \/ e.f \in st.ccall))>>,
+     <<"C03_StoppedFinalisedAtOnce",   \* a refused cancel() stops the retries: once the attempt is over and the policy has
+        \* answered, the future carries that attempt's outcome at once - not when some other submission's back-off ends
+        (e.ev = "Observed" /\ e.s = "FINISHED" /\ st.exact /\ Has(st.dec, e.f) /\ st.dec[e.f] = 1
+            /\ Has(st.cfalse, e.f) /\ Has(st.polt, e.f) /\ st.cfalse[e.f] <= st.polt[e.f]) =>
+          e.t <= st.polt[e.f] + SLACK>>,
      <<"C05_FinalOutcome",
         (e.ev = "Observed" /\ e.s = "FINISHED" /\ Has(st.endo, e.f)) =>
             (IF st.endo[e.f][1] > 0 THEN 1 ELSE 0) = e.a /\ st.endo[e.f][2] = e.b>>,
